@@ -2,9 +2,9 @@ package main
 
 import (
 	"fmt"
-	"os"
 	"go/token"
 	"go/types"
+	"os"
 	"sort"
 	"strings"
 
@@ -14,13 +14,13 @@ import (
 // R9 — user-supplied axes/indices: validated (R9a) and negative-normalised (R9b) before use.
 
 type axisSource struct {
-	op      string // operator type name
-	field   string // receiver field holding an attribute axis (or "")
-	input   int    // tensor-valued source: inputs[k] (or -1)
-	kind    string // "axis", "axes", "perm", "indices"
-	props   []string
-	negOK   bool // negative values are meaningful (ONNX allows negative spelling)
-	arm9a   map[string]bool
+	op    string // operator type name
+	field string // receiver field holding an attribute axis (or "")
+	input int    // tensor-valued source: inputs[k] (or -1)
+	kind  string // "axis", "axes", "perm", "indices"
+	props []string
+	negOK bool // negative values are meaningful (ONNX allows negative spelling)
+	arm9a map[string]bool
 }
 
 // frozen table, confirmed by reading every operator (DESIGN §4 R9)
@@ -42,9 +42,9 @@ var axisSources = []axisSource{
 
 // axis contracts of external callees: which argument is an axis and what the callee does with it.
 type axisContract struct {
-	arg       int  // operand index (receiver = 0 for methods), -1 = trailing variadic
+	arg       int    // operand index (receiver = 0 for methods), -1 = trailing variadic
 	validates string // "both", "upper", "perm", "none"
-	resolves  bool // resolves negative axes itself
+	resolves  bool   // resolves negative axes itself
 }
 
 var axisContracts = map[string]axisContract{
